@@ -168,6 +168,9 @@ def bytes_pool():
     base = build_ttf([(0, 0), (540, 1472), (949, 1447)])
     other = build_ttf([(0, 0), (949, 1447), (540, 1472)])
     pool = [base, other]
+    # file signatures (content sniffing): same name, different leading bytes
+    pool += [sig + b"\x00" * 24 for sig in (b"\x89PNG\r\n\x1a\n", b"\xff\xd8\xff\xe0", b"GIF89a", b"BM", b"II*\x00", b"MM\x00*", b"%PDF-1.4\n", b"PK\x03\x04",
+                                              b"\xd0\xcf\x11\xe0\xa1\xb1\x1a\xe1", b"<?xml version=\"1.0\"?><svg/>", b"RIFF\x00\x00\x00\x00WEBP")]
     for i in range(len(base)):                       # every one-byte variant: a cache key that ignores a byte collides here
         pool.append(base[:i] + bytes([base[i] ^ 0x15]) + base[i + 1:])
     k16 = bytes(range(16))
@@ -278,6 +281,10 @@ def _kind(ann):
     s = str(s).replace("typing.", "").replace("List", "list").replace(" ", "")
     if s.startswith("Optional[") and s.endswith("]"):
         return _kind(s[9:-1])
+    if s.endswith("|None"):
+        return _kind(s[:-5])
+    if s.startswith("None|"):
+        return _kind(s[5:])
     if s in ("bytes", "bytes|bytearray", "bytearray"):
         return "bytes"
     if s in ("list[int]", "Sequence[int]", "tuple[int,...]"):
@@ -608,6 +615,104 @@ def schedule_search(rel, funcs, cap=260):
     return None
 
 
+# ------------------------------------------------- context-manager protocol --
+def module_snapshot(mod):
+    """Module-level flags / counters / configuration by value, function bindings by identity, plus the patched pypdf names."""
+    snap = {}
+    for k, v in vars(mod).items():
+        if k.startswith("__"):
+            continue
+        if isinstance(v, (bool, int, float, str, bytes, type(None))):
+            snap[k] = repr(v)
+        elif isinstance(v, (dict, list, set)) and len(v) < 64:
+            try:
+                snap[k] = repr(sorted(v.items()) if isinstance(v, dict) else v)[:400]
+            except Exception:  # noqa
+                snap[k] = f"{type(v).__name__}[{len(v)}]"
+        elif hasattr(v, "__dataclass_fields__") and not isinstance(v, type):
+            snap[k] = repr(v)[:400]
+    st = global_state()
+    st.pop("tmp_entries", None)
+    st.pop("open_fds", None)
+    snap.update({"<" + k + ">": v for k, v in st.items()})
+    return snap
+
+
+def ctx_search(rel, qual):
+    """A zero-argument context manager of the package: every way of leaving the with-body (normally, by an exception, by a
+    BaseException, nested) must put the module state back, and a later use must behave like the first one."""
+    if not rel or not qual or "." in qual:
+        return None
+    try:
+        mod = importlib.import_module(rel[:-3].replace("/", "."))
+        cm = getattr(mod, qual)
+    except Exception:  # noqa
+        return None
+    import inspect
+    try:
+        if any(p.default is p.empty and p.kind in (p.POSITIONAL_ONLY, p.POSITIONAL_OR_KEYWORD, p.KEYWORD_ONLY) for p in inspect.signature(cm).parameters.values()):
+            return None
+    except (TypeError, ValueError):
+        return None
+
+    class Boom(Exception):
+        pass
+
+    class Hard(BaseException):
+        pass
+
+    def inside():
+        return {k: v for k, v in module_snapshot(mod).items() if k.startswith("<")}
+
+    def use(kind):
+        try:
+            with cm():
+                seen = inside()
+                if kind == "exception":
+                    raise Boom()
+                if kind == "base-exception":
+                    raise Hard()
+                if kind == "nested":
+                    with cm():
+                        pass
+                if kind == "nested-exception":
+                    try:
+                        with cm():
+                            raise Boom()
+                    except Boom:
+                        pass
+        except (Boom, Hard):
+            pass
+        return seen
+
+    def trial(kinds):
+        before = module_snapshot(mod)
+        first = None
+        for k in kinds:
+            seen = use(k)
+            first = first if first is not None else seen
+        after = module_snapshot(mod)
+        seen_last = use("normal")
+        return {"diff": sorted(k for k in set(before) | set(after) if before.get(k) != after.get(k)),
+                "before": before, "after": after,
+                "patched_first": first != {k: v for k, v in before.items() if k.startswith("<")},
+                "patched_later": seen_last != {k: v for k, v in after.items() if k.startswith("<")}}
+    for kinds in (["normal"], ["exception"], ["base-exception"], ["nested"], ["nested-exception"], ["exception", "normal"]):
+        r = forked(lambda kinds=kinds: trial(kinds)).get("ok")
+        if not r:
+            continue
+        if r["diff"]:
+            k = r["diff"][0]
+            return {"reproduced": True, "target": f"{rel}::{qual}", "inputs": {"history": [f"with {qual}(): <{x}>" for x in kinds]},
+                    "expected": f"module state restored: {k} == {r['before'].get(k)}", "observed": f"{k} == {r['after'].get(k)} after the with-statement(s)",
+                    "search": "context-manager protocol: normal / exception / BaseException / nested exits, module state before vs after"}
+        if r["patched_first"] != r["patched_later"]:
+            return {"reproduced": True, "target": f"{rel}::{qual}", "inputs": {"history": [f"with {qual}(): <{x}>" for x in kinds], "call": f"with {qual}(): <observe>"},
+                    "expected": f"the with-body sees the patched functions exactly as in the first use (patched={r['patched_first']})", "observed": f"patched={r['patched_later']}",
+                    "search": "context-manager protocol: a later use must behave like the first one"}
+    return None
+
+
 # ------------------------------------------------------------------ fixtures --
 def fixtures_check():
     import sharepoint2text
@@ -703,6 +808,22 @@ def _find(req):
         return {"results": [replay_known(k) for k in req["known"]]}
     rel, funcs, writer = hint.get("rel"), hint.get("functions"), hint.get("writer")
     plan = []
+    # function-level directed searches named by the obligation: context managers, accessors of new state
+    fn_target = req.get("function") or ""
+    cands = list(hint.get("context_managers") or [])
+    if "::" in fn_target:
+        cands.append(fn_target.split("::"))
+    for (r_, q_) in cands:
+        r = ctx_search(r_, q_)
+        if r:
+            r["found_by"] = "context-manager protocol"
+            return r
+    for ns in hint.get("new_states") or []:
+        for w in ns.get("writers") or []:
+            r = memo_search(ns.get("rel"), w)
+            if r:
+                r["found_by"] = "memo"
+                return r
     if "/memo#" in oid:
         plan = ["memo", "history", "serial"]
     elif "/schedule#" in oid:
